@@ -13,7 +13,7 @@ SOURCES = ['src/opus_encoder.c', 'src/opus_private.h', 'src/analysis.c', 'src/an
 REQUIRED_THEOREMS = ['OpusProps.C20.' + t for t in (
     'dtx_first_decision', 'dtx_machine_run_bound', 'dtx_machine_refresh', 'dtx_machine_resume',
     'silk_onset', 'silk_run_bound', 'silk_refresh_resume',
-    'dtx_onset', 'dtx_run_bound', 'dtx_detector_switch_no_dtx', 'dtx_resume', 'dtx_resume_counter', 'dtx_resume_silk',
+    'dtx_packet_at_most_two_bytes', 'dtx_onset', 'dtx_run_bound', 'dtx_detector_switch_no_dtx', 'dtx_resume', 'dtx_resume_counter', 'dtx_resume_silk',
     'in_dtx_on_dtx_packets', 'counters_in_range', 'regular_iff_budget', 'regular_iff_three_bytes',
     'dtx_off_no_tiny', 'dtx_stream_decodes', 'vad_init_invariant', 'vad_total_in_range', 'vad_energy_fits_32bit',
     'vad_filter_state_32bit', 'vad_silence_inactive', 'silk_dtx_onset_on_silence')]
